@@ -134,6 +134,9 @@ func CheckStream(res *Result, ref *Ref, prefixOnly bool) (out []Finding, facts S
 		return
 	}
 	// completeness
+	if stop == 0 && res.EndedAtHead > 0 {
+		stop = res.EndedAtHead + 1 // open-ended request: everything up to the chain's last block
+	}
 	if stop == 0 {
 		return
 	}
